@@ -414,7 +414,13 @@ impl<'a, 'b> G<'a, 'b> {
             }
             _ => {
                 self.feat("unknown-at-rule");
-                match self.c.pick(3) {
+                match self.c.pick(4) {
+                    // a plain CSS import that reaches the document root from inside a rule: Sass hoists
+                    // it above every rule (an @import after a style rule is ignored by CSS)
+                    3 => {
+                        self.feat("plain-css-import-via-at-root");
+                        format!(".hoist {{\n  a: b;\n  @at-root {{\n    @import url(\"late{}.css\");\n  }}\n}}\n", self.c.pick(3))
+                    }
                     0 => "@foo bar;\n".to_string(),
                     1 => format!("@foo #{{$s}} {{\n  a: b;\n}}\n"),
                     _ => "@page :first {\n  margin: 1in;\n}\n".to_string(),
